@@ -227,7 +227,7 @@ theorem cgS_vm_mono (mod fn : String) (φ : String → Option String) : ∀ (n :
       case letS sp name vty nc oty e =>
         cases nc
         · simp only [cgS]
-          have := cnt_freshVar mod { env with lm := (cgL mod (ρS env.scopes) φ e env.lm).2 } name k
+          have := cnt_freshVar mod { env with lm := (cgE mod (ρS env.scopes) φ e env.lm).2 } name k
           simp only at this
           rw [this]
           split <;> (try subst_vars) <;> omega
